@@ -76,6 +76,10 @@ def gen_inputs(ctx):
             path[rng.randrange(len(path))] = rng.randrange(2 ** 31, 2 ** 32)
         out.append(("DerivePath", {"root": pub_parent(rng, k, depth=rng.choice([0, 1, 4])), "path": [idx4(x) for x in path], "form": "iterator"},
                     ("pub-path-as-iterator", len(path), any(x >= 2 ** 31 for x in path))))
+    # the same refusal when the xpub was loaded through the PRIVATE node class
+    for i in [2 ** 31, 2 ** 31 + 44, 2 ** 32 - 1] + [rng.randrange(2 ** 31, 2 ** 32) for _ in range(2 if q else 20)]:
+        k, kc = rng.choice(sc)
+        out.append(("MisloadedPub", {"par": pub_parent(rng, k, depth=rng.choice([0, 3])), "i": idx4(i)}, ("refuse-misloaded", i == 2 ** 31)))
     # only the public child is kept by the caller (the parent object is gone before anything is printed)
     import copy
     base = [x for x in out if x[0] == "CkdPub" and "prf" not in x[1] and x[2][0] == "pub"]
@@ -106,6 +110,8 @@ def gen_inputs(ctx):
 
 
 def describe(ev):
+    if ev["act"] == "MisloadedPub":
+        return "PrvKeyNode.parse(<xpub>) then hardened derivation at %d" % int.from_bytes(bytes(ev["inp"]["i"]), "big")
     if ev["act"] == "CkdSeq":
         return "ckd requests %s on one public node object and its children" % (
             [(st["from"], int.from_bytes(bytes(st["i"]), "big")) for st in ev["inp"]["steps"]],)
